@@ -251,9 +251,18 @@ Proof.
     + bs_brk.
     + destruct spf; [bs_brk | bs_cont stk].
   - (* set *) inversion Hr; subst st dv s'. bs_cont stk.
+  - (* exec *) inversion Hr; subst st dv s'. bs_cont stk.
+  - (* . of a missing file *) inversion Hr; subst st dv s'. destruct spf; [bs_brk | bs_cont stk].
   - (* probe *) inversion Hr; subst st dv s'. bs_cont stk.
   - (* true *) inversion Hr; subst st dv s'. bs_cont stk.
   - (* false *) inversion Hr; subst st dv s'. bs_cont stk.
+  - (* wait *) destruct (job_wait args s) as [stw sw] eqn:Ew. inversion Hr; subst st dv s'.
+    cbn [error_divert]; cbv zeta iota beta; cbn [run_utility]. rewrite Ew.
+    rewrite (abs_apply_errexit stk (has_cond stk)) by reflexivity.
+    assert (Hsame : funs sw = funs s /\ exit_trap sw = exit_trap s /\ ronly sw = ronly s).
+    { unfold job_wait in Ew. destruct (match args with [_] => last_async s | _ => None end);
+        [destruct (lookup_job n (jobs s))|]; inversion Ew; subst; repeat split; reflexivity. }
+    split; [reflexivity | split; [apply res_ok_errexit | exact Hsame]].
   - (* a user name never names a built-in; the model answers 127 *)
     inversion Hr; subst st dv s'. bs_cont stk.
 Qed.
@@ -624,7 +633,7 @@ Proof.
     pose proof (Imulti _ _ _ _ _ infun ex H He Hwr Hs) as Hok3.
     rewrite <- abs_none_apply_result in Hok2.
     destruct (abs None r c1) as [cc c1'] eqn:Eabs. cbn [snd] in Hok2.
-    ok_start. cbn [sem_multi]. unfold child_state in Hok1. ok_rw. reflexivity.
+    ok_start. cbn [sem_multi]. ok_rw. reflexivity.
 Qed.
 
 (* ---- the EXIT trap and subshells ---- *)
@@ -662,7 +671,7 @@ Proof.
   pose proof (Itrap _ _ _ ex H He (state_ok_apply_result r _ Hs1)) as Hok2.
   rewrite <- abs_none_apply_result in Hok2.
   destruct (abs None r c1) as [cc c1'] eqn:Eabs. cbn [snd] in Hok2.
-  ok_start. cbn [sem_subshell]. unfold child_state in Hok1. ok_rw. reflexivity.
+  ok_start. cbn [sem_subshell]. ok_rw. reflexivity.
 Qed.
 
 (* ---- if ---- *)
@@ -1109,6 +1118,33 @@ Proof.
     post_split; [| apply res_ok_cont |].
     + destruct Hs as [F T]. split; cbn; auto.
     + intros sv. ok_now. reflexivity.
+  - (* x=$(body) *)
+    cbn [exec_cmd] in H. cbn [wf_cmd] in Hw. apply andb_true_iff in Hw as [_ Hwb].
+    destruct (run_subshell n stk body s) as [child|] eqn:Esub; [|discriminate].
+    pose proof (Isub _ _ _ _ infun ex Esub Hex Hwb Hs) as Hok.
+    destruct (is_ronly x s) eqn:Ero.
+    + inversion H; subst r s'.
+      post_split; [eapply state_ok_same; [..|exact Hs]; reflexivity | apply res_ok_expansion |].
+      intros sv. rewrite (abs_expansion_error stk sv _ ErrAssignment eq_refl eq_refl ex).
+      ok_start. cbn [sem_cmd]. ok_rw. rewrite Ero. reflexivity.
+    + inversion H; subst r s'. apply (post_done infun d stk _ ex _ Hex).
+      * eapply state_ok_same; [..|exact Hs]; reflexivity.
+      * intros sv. ok_start. cbn [sem_cmd]. ok_rw. rewrite Ero. reflexivity.
+  - (* : $(body) *)
+    cbn [exec_cmd] in H. cbn [wf_cmd] in Hw. apply andb_true_iff in Hw as [_ Hwb].
+    destruct (run_subshell n stk body s) as [child|] eqn:Esub; [|discriminate].
+    pose proof (Isub _ _ _ _ infun ex Esub Hex Hwb Hs) as Hok.
+    inversion H; subst r s'. rewrite apply_errexit_zero by reflexivity.
+    post_split; [eapply state_ok_same; [..|exact Hs]; reflexivity | apply res_ok_cont |].
+    intros sv. ok_start. cbn [sem_cmd]. ok_rw. reflexivity.
+  - (* { a & } *)
+    cbn [exec_cmd] in H. cbn [wf_cmd] in Hw.
+    assert (Hwb : wf_list 0 infun (LCons a LNil) = true) by (cbn [wf_list]; rewrite Hw; reflexivity).
+    destruct (run_subshell n stk (LCons a LNil) s) as [child|] eqn:Esub; [|discriminate].
+    pose proof (Isub _ _ _ _ infun ex Esub Hex Hwb Hs) as Hok.
+    inversion H; subst r s'.
+    post_split; [eapply state_ok_same; [..|exact Hs]; reflexivity | apply res_ok_cont |].
+    intros sv. ok_start. cbn [sem_cmd]. ok_rw. reflexivity.
   - (* call *) exact (step_call n Icmd _ _ _ _ _ _ _ _ _ _ H Hc Hw Hs).
   - (* brace group *)
     cbn [exec_cmd] in H. cbn [wf_cmd] in Hw.
